@@ -293,7 +293,11 @@ func PeerBeforePorts(p *core.Program, r *core.Report, rule string) {
 					for _, portsCall := range portsCalls {
 						fm, paths, found := FactsAtWith(fd, portsCall, nil, []ast.Expr{id})
 						if !found || len(paths) != 1 || !facts.Entails(fm, facts.Atom("b:"+paths[0])) {
-							ok = false
+							// the common tail of the siblings extracted into a helper: the selection result is handed to it and
+							// every examination of the ports in the helper runs where that parameter is known to be true
+							if !portsGuardedInCallee(p, info, portsCall, info.ObjectOf(id), examinesPorts) {
+								ok = false
+							}
 						}
 					}
 				}
@@ -303,6 +307,60 @@ func PeerBeforePorts(p *core.Program, r *core.Report, rule string) {
 			"the port matcher runs before (or regardless of) the peer selection: for a destination that is an IP block a named port is then resolved on a nil pod (crash), and ports of rules that do not select the peer are examined")
 	}
 	r.Floor(rule, 4)
+}
+
+// portsGuardedInCallee: call hands the variable sel to a module function as a parameter, and inside that function every
+// call that examines a rule's ports is made where that parameter is known to be true.
+func portsGuardedInCallee(p *core.Program, info *types.Info, call *ast.CallExpr, sel types.Object, examinesPorts func(*types.Func) bool) bool {
+	fn := core.Callee(info, call)
+	if fn == nil {
+		return false
+	}
+	h := p.ByObj[fn]
+	if h == nil {
+		return false
+	}
+	idx := -1
+	for i, a := range call.Args {
+		if id, ok := ast.Unparen(a).(*ast.Ident); ok && info.ObjectOf(id) == sel {
+			idx = i
+		}
+	}
+	sig := fn.Type().(*types.Signature)
+	if idx < 0 || idx >= sig.Params().Len() {
+		return false
+	}
+	param := sig.Params().At(idx)
+	var pid *ast.Ident
+	for _, fl := range h.Decl.Type.Params.List {
+		for _, nm := range fl.Names {
+			if h.Pkg.TypesInfo.ObjectOf(nm) == param {
+				pid = nm
+			}
+		}
+	}
+	if pid == nil {
+		return false
+	}
+	hinfo := h.Pkg.TypesInfo
+	anyCall, all := false, true
+	ast.Inspect(h.Decl.Body, func(nd ast.Node) bool {
+		c, ok := nd.(*ast.CallExpr)
+		if !ok {
+			return true
+		}
+		g := core.Callee(hinfo, c)
+		if g == nil || !p.IsModuleFunc(g) || !examinesPorts(g) {
+			return true
+		}
+		anyCall = true
+		fm, paths, found := FactsAtWith(h, c, nil, []ast.Expr{pid})
+		if !found || len(paths) != 1 || !facts.Entails(fm, facts.Atom("b:"+paths[0])) {
+			all = false
+		}
+		return true
+	})
+	return anyCall && all
 }
 
 // UnconditionalIPBlockContribution is C14-f: every ipBlock peer of every rule contributes its ranges to the list from
